@@ -17,6 +17,9 @@ type replayC07Fact struct {
 	A, B  bool
 }
 
+// Cat concatenates (used to probe argument-list snapshots).
+func (f *replayC07Fact) Cat(a, b string) string { return a + "|" + b }
+
 func replayC07Run(grl string, f replayC07Fact) (replayC07Fact, error) {
 	lib := ast.NewKnowledgeLibrary()
 	if err := builder.NewRuleBuilder(lib).BuildRuleFromResource("K", "1", pkg.NewBytesResource([]byte(grl))); err != nil {
@@ -28,6 +31,8 @@ func replayC07Run(grl string, f replayC07Fact) (replayC07Fact, error) {
 	}
 	d := ast.NewDataContext()
 	d.Add("F", &f)
+	g := replayC07Fact{X: f.X + 1, S: f.S + "g"}
+	d.Add("G", &g)
 	e := NewGruleEngine()
 	e.MaxCycle = 10
 	err = e.Execute(d, kb)
@@ -40,10 +45,22 @@ func TestReplaySearchSiblingConstants(t *testing.T) {
 		{"F.X > 1.0000001", "F.X > 1.0000002", replayC07Fact{X: 1.00000015}},
 		{`F.S == "a"`, `F.S == "a "`, replayC07Fact{S: "a"}},
 		{"F.X > 1", "F.X > 1.0", replayC07Fact{X: 2}},
+		// composite snapshots: operand order, operator spelling, negation, owner of a member, argument lists
+		{`F.S + "x" == "ax"`, `"x" + F.S == "ax"`, replayC07Fact{S: "a"}},
+		{`F.X - 1 > 0`, `1 - F.X > 0`, replayC07Fact{X: 3}},
+		{"F.X >= 2", "F.X > 2", replayC07Fact{X: 2}},
+		{"F.X <= 2", "F.X < 2", replayC07Fact{X: 2}},
+		{"F.X == 2", "F.X != 2", replayC07Fact{X: 2}},
+		{"!(F.X > 1)", "(F.X > 1)", replayC07Fact{X: 2}},
+		{"F.X > 1 || F.X < 0", "F.X > 1 && F.X < 0", replayC07Fact{X: 2}},
+		{`F.S == "a"`, `G.S == "a"`, replayC07Fact{S: "a"}},
+		{`F.Cat("a", "bc") == "a|bc"`, `F.Cat("ab", "c") == "a|bc"`, replayC07Fact{}},
+		{`F.Cat("a", "b") == "a|b"`, `F.Cat("b", "a") == "a|b"`, replayC07Fact{}},
+		{`F.S.ToUpper() == "A"`, `F.S.ToLower() == "A"`, replayC07Fact{S: "a"}},
 	}
 	for _, p := range pairs {
-		r1 := fmt.Sprintf(`rule R1 "1" { when %s && !F.A then F.A = true; }`, p.c1)
-		r2 := fmt.Sprintf(`rule R2 "2" { when %s && !F.B then F.B = true; }`, p.c2)
+		r1 := fmt.Sprintf(`rule R1 "1" { when (%s) && !F.A then F.A = true; }`, p.c1)
+		r2 := fmt.Sprintf(`rule R2 "2" { when (%s) && !F.B then F.B = true; }`, p.c2)
 		a1, e1 := replayC07Run(r1, p.fact)
 		a2, e2 := replayC07Run(r2, p.fact)
 		for _, both := range []string{r1 + "\n" + r2, r2 + "\n" + r1} {
